@@ -508,7 +508,7 @@ def gen_scripts(rng, tier):
             add("after-loss", [False] * n, [list(f)] + finale(rng, n, answer=False, final_cut=False))
             add("after-loss", [False] * (n - 1) + [True], [list(f)] + finale(rng, n, answer=False, final_cut=False))
     # G. seeded random schedules
-    for i in range(160 if quick else 2500):
+    for i in range(160 if quick else 1500):
         n = rng.choice((1, 2, 3, 3))
         closers = [rng.random() < 0.2 for _ in range(n)]
         seqs = [prefix_for(k, rng.choice(STAGES[1:])) for k in range(n)]
